@@ -107,6 +107,7 @@ def remote_shard(task):
           if target == 'suggest' and 'fail_stop' in fault:
             continue
           n += 1
+          dep = c08.deployments([(mode, db)])[0]     # rebuilt if the previous scenario wedged its server
           dep.reset()
           dep.env.__init__()
           dep.servicer.CreateStudy(svc.vs.CreateStudyRequest(parent=svc.OWNER, study=study_pb2.Study(display_name='s', study_spec=svc.spec())))
@@ -120,6 +121,7 @@ def remote_shard(task):
             setattr(dep.env, k, v)
           failing = ('suggest', 2, 'a') if target == 'suggest' else ('check_early_stopping', 1)
           o1 = c08.run_op(dep, failing)
+          held = svc.held_locks(dep.servicer)
           reached1 = (dep.env.suggest_calls + dep.env.stop_calls + dep.env.factory_calls) > calls0
           dep.env.reset()
           calls1 = dep.env.suggest_calls + dep.env.stop_calls + dep.env.factory_calls
@@ -134,6 +136,8 @@ def remote_shard(task):
           def V(clause, text):
             sig = 'C06|remote:%s|%s|%s|%s' % (clause, target, sorted(fault)[0], mode)
             vios.setdefault(sig, {'sig': sig, 'desc': '[%s] prefix %s fault %s: %s' % (who, prefix, fk, text), 'case': {'remote': True}})
+          if held:
+            V('lock-held-after-failure', 'the failing %s returned %s and left %s held' % (target, str(o1)[:80], ', '.join(held)))
           if reached1 and o1[0] != 'exc':
             V('failure-not-reported', 'the failing %s returned %s' % (target, str(o1)[:120]))
           if o2[0] != 'ok':
